@@ -56,6 +56,7 @@ func domain(prop, name, desc, tier string, ks []kase, props map[string]bool) *dr
 				c.Count("reference_compares", res.RefCompares)
 				c.Nontrivial(res.NontrivialJumps + res.Signs)
 				c.Count("nontrivial_jumps", res.NontrivialJumps)
+				c.Count("diagnostic:auth_path_not_ready_in_state", res.AuthNotReadyInState)
 				c.Outcome(fmt.Sprintf("states=%d", res.States))
 				c.SetAdd(fmt.Sprintf("trace:%s:h=%d", k.mode, k.cfg.H), res.TraceDigest)
 				if sym != nil {
